@@ -10,6 +10,8 @@ HOOK_COMMITS = subprocess.run(
 # id -> (technique, level text, level note, design ref)
 LOOP_NOTE = "Trusts the cfg(divan_verif) hook layer: the scripted timestamp counter only replaces the source of TSC readings, precision/overheads are supplied instead of measured, crate-private results are copied out unchanged. T > 1 runs use real threads with per-thread scripted clocks (per-thread logs are deterministic; cross-thread interleavings are C08's domain)."
 
+TWIN_NOTE = "Trusts the twin registry: entries are built from the public __private structs exactly as the macros emit them and pushed through the public EntryList::push; the real Divan::main / run_action runs unchanged (positive filters, sort, list actions and the TSC timer are set through a cfg(divan_verif) hook because only the CLI can set them; the CLI itself is exercised in a child process through divan::main()). Benchmark bodies log every invocation."
+
 CHECKS = {
     "C01": (
         "property-based testing + small-scope enumeration: per-id life-cycle automaton over the event log of the real sample loop driven with instrumented values; generated panic points",
@@ -66,6 +68,31 @@ CHECKS = {
         "Generated-input search over (a,b,f) in u64 x u64 x (u64\\{0}) with a boundary-heavy mixture, all Durations, and scripted uniform-step clocks; the oracle is a validity predicate q*f <= (b-a)*10^12 < (q+1)*f evaluated in checked 128-bit arithmetic, independent of the implementation's expression. Exploration, not proof: absence is not established, but every boundary class named in the property is generated thousands of times per run.",
         "Trusts the cfg(divan_verif) wrappers (they call the production functions unchanged) and the scripted TSC reader for the precision clause (precondition: a non-zero one-step difference is observable at least once per 50 reading pairs).",
         "DESIGN.md section 4, C11"),
+    "C13": (
+        "property-based testing (model-based): reference selection rule (regex crate as matcher) vs executed cases and printed nodes of the real runner over generated entry trees and filter sets; in-process and through real command lines; FilterSet::is_match differential",
+        "Generated crates (module trees, groups with custom names, args, types, consts, duplicate / non-ASCII / '::'-containing names, random registration order) and filter sets built from the tree; the set of benchmark bodies invoked and the multiset of nodes printed by the real runner (parsed back) must equal the reference selection: selected iff no skip matches and (no positive or some positive matches), per argument case, ancestors shown iff a selected case lies below. Also through --skip / positional / --exact on a real command line, and FilterSet::is_match against the reference on generated paths. Exploration only.",
+        TWIN_NOTE,
+        "DESIGN.md section 4, C13"),
+    "C14": (
+        "property-based testing (differential + model): empty invocation log under every list action; terse lines = cases executed by a test run with the same filters/flags; --exact round trip",
+        "Generated crates with ignore set directly, inherited, overridden to false inside an ignored group, x filter sets x {none, --ignored, --include-ignored}: --list, --list --format terse (NEXTEST=1) and Divan::list_benches() must invoke nothing; the multiset of terse lines must equal the paths of exactly the cases a test run executes (which itself must match the reference ignore/selection rule); listed unique paths fed back as the only --exact filter select exactly that case. Found and fixed two defects (list_benches ran everything; terse listing ignored inherited ignore). Exploration only.",
+        TWIN_NOTE,
+        "DESIGN.md section 4, C14"),
+    "C15": (
+        "small-scope enumeration of the presence lattice + property-based testing: per-field precedence model vs the effective options observed inside the benchmark body and behaviour (calls, thread branches, skipped benchmarks); builder, CLI flags and DIVAN_* environment",
+        "For each of the 11 option fields all 2^5 presence patterns over (runner, benchmark, 3 nested groups) are enumerated (exhaustive for that sub-space); random trees set every field independently at every level. The effective BenchOptions and thread count each body is handed, the counters its Bencher holds after Bencher::counter / input_counter, the number of calls and which benchmarks are skipped must match: runner over benchmark over innermost..outermost group, per field; 0 threads = available parallelism, sorted, de-duplicated. The runner level is set by builder calls in-process and by flags, environment variables and both (flags win) in a child process. Exploration only.",
+        TWIN_NOTE,
+        "DESIGN.md section 4, C15"),
+    "C16": (
+        "property-based testing: reference natural/numeric comparator and order laws on the real comparators; printed sibling and argument order of generated trees judged by a reference comparator (non-decreasing), --sortr exact reverse for strict orders, permutation",
+        "Pure level: natural_cmp equals a reference (digit runs by value, else bytes) and is a total preorder on generated names; argument lists (all-integer incl. negatives and 128-bit, all-float, all-string) sorted by the real comparator must be a permutation in the documented order for 3 attributes x 2 directions; mixed lists only permutation / no panic. Tree level: the real runner prints generated sibling sets (leaves / groups, custom names, generic consts, location ties on purpose); the parsed order must be consistent with the reference comparator and --sortr the exact reverse when keys are strict. Found and fixed integer arguments not being compared by value; a panic on long mixed lists is a known finding. Exploration only.",
+        TWIN_NOTE + " Distinct entries at the very same file:line:col have no documented relative position (any order accepted).",
+        "DESIGN.md section 4, C16"),
+    "C17": (
+        "property-based testing: printed rows zipped with the invocation log (label = rendering of the received value / const / type), args evaluated once; twin level over sorts, reversals and filters keeping strict subsets of the arguments",
+        "Generated crates in which most benchmarks take args (also combined with types / consts) x 3 sorts x 2 directions x filters x thread lists: the sequence of printed rows (parsed back) is zipped with the sequence of body invocations, which log the argument value, const label and type label they actually received; every pair must agree, and each args expression is evaluated exactly once per process and shared by all generic instantiations. Exploration only.",
+        TWIN_NOTE + " The macro-generated glue for the individual argument iterator kinds is exercised on compiled programs only where the e3 groups run (see evidence).",
+        "DESIGN.md section 4, C17"),
     "C18": (
         "property-based testing: interval-membership oracle on the printed string in exact big-integer arithmetic (no floats, no division), canonical-form rules, boundary generators",
         "Every printed string is parsed back; canonical-form rules (no exponent, no trailing zeros, max(0,4-d) decimals, integer digits in full) are checked and the exact input value must lie in the truncation interval the string claims, in the largest unit not exceeding it. Values are generated uniformly by bit length and densely (+-2000 ps / +-6 ulp) around every unit and digit boundary; float formatters get a relative 2^-50 allowance for the digits only. Exploration only.",
@@ -76,9 +103,15 @@ CHECKS = {
         "Generated cost models (constant incl. 0 and the exact doubling boundaries, growing, noisy, zero-then-constant) relative to a supplied precision, T 1..3 with skew, max_time cutting tuning short, allocation scripts and per-input counters in discarded rounds; the checker replays size_1 = 1, double while floor(slowest/p) <= 100, freeze otherwise, stop rule as C04, and requires the reported size, samples, durations, allocation and counter data to be exactly those of the rounds from the freezing round on. Exploration only.",
         LOOP_NOTE + " u32 overflow of the doubling is out of reach.",
         "DESIGN.md section 4, C19"),
+    "C20": (
+        "property-based testing with a strict output parser: the captured stdout of the real runner is parsed back (grammar prefix* glyph name cells / continuation rows); parsed tree = expected tree, cells = production-formatted reference values under a scripted clock",
+        "Generated crates x {bench, test, list} x ignore flags x filters x runner options x byte format: the real output must parse with a strict parser (│ exactly under ancestors with later siblings, ╰─ exactly on last children, continuation rows carrying the bar iff their leaf is not last), show exactly the selected groups, benchmarks, argument cases and t=N branches once each, mark skipped benchmarks (ignored) without running them, and in bench mode every statistics row must show the closed-form fastest/slowest/median/mean/samples/iters of a scripted clock whose k-th sample lasts 100+10*(k mod 3) ns, with one throughput row per effective counter computed from that column's time. Exploration only.",
+        TWIN_NOTE + " Sibling order is judged by C16.",
+        "DESIGN.md section 4, C20"),
 }
 
 NOT_YET = {
+    "C12": "check not finished in this revision: it needs compiled programs that use the real #[divan::bench] / #[divan::bench_group] macros (generator in progress, DESIGN.md section 4, E3); nothing is claimed for it yet",
 }
 
 def main():
